@@ -15,16 +15,19 @@ EXTENDS Index, Json
 CONSTANTS MaxDefiners,     \* bound on the number of files defining "n"
           Emit,            \* subset of {"goto","refs","avail","rff","unused"}
           Levels, LevelsB, \* which conftest kinds are enumerated per level: [0..2 -> SUBSET ConfKinds]
-          SameKinds, ExtraSets, ExtraSetsB, UseKinds, UFiles
+          SameKinds, ExtraSets, ExtraSetsB, UseKinds, UFiles,
+          ExtraUsers,      \* BOOLEAN: also put tests using "n" at depth 0 and 1 (slots t0, t1)
+          Revs,            \* subset of BOOLEAN: TRUE = the using item precedes the file's own definitions
+          OrderMode        \* "all": every registration order of the definers; "two": one order and its reverse
 
 VARIABLES stage, case, vws, vix
 vars == <<stage, case, vws, vix>>
 
-MCFiles == {"c0", "c1", "c2", "cs", "u", "o", "m", "h0", "h1", "h2", "hh", "pl", "tp"}
+MCFiles == {"c0", "c1", "c2", "cs", "u", "o", "m", "h0", "h1", "h2", "hh", "pl", "tp", "t0", "t1"}
 MCDirs  == {"R", "Ra", "Rab", "Rs", "P", "T"}
 MCDirOf == [f \in MCFiles |->
-              CASE f \in {"c0", "h0"} -> "R"
-                [] f \in {"c1", "h1", "hh"} -> "Ra"
+              CASE f \in {"c0", "h0", "t0"} -> "R"
+                [] f \in {"c1", "h1", "hh", "t1"} -> "Ra"
                 [] f \in {"c2", "h2", "u", "o", "m"} -> "Rab"
                 [] f = "cs" -> "Rs"
                 [] f = "pl" -> "P"
@@ -33,7 +36,7 @@ MCParentOf == [d \in MCDirs |->
               CASE d = "Rab" -> "Ra" [] d = "Ra" -> "R" [] d = "Rs" -> "R" [] OTHER -> "NODIR"]
 MCRoleOf == [f \in MCFiles |->
               CASE f \in {"c0", "c1", "c2", "cs"} -> "conftest"
-                [] f \in {"u", "o"} -> "test"
+                [] f \in {"u", "o", "t0", "t1"} -> "test"
                 [] f = "pl" -> "plugin"
                 [] f = "tp" -> "third"
                 [] OTHER -> "module"]
@@ -41,10 +44,13 @@ MCRoleOf == [f \in MCFiles |->
 Names == {"n", "w", "x"}
 
 AllConfKinds == {"absent", "irrelevant", "def", "def2", "override", "star", "imp", "imp_nonfix",
-                 "plugins", "star2"}
-MCLevelsFull == [l \in 0..2 |-> CASE l = 0 -> AllConfKinds \ {"star2"}
+                 "plugins", "star2", "imp2"}
+MCLevelsFull == [l \in 0..2 |-> CASE l = 0 -> AllConfKinds \ {"star2", "imp2"}
                                   [] l = 1 -> AllConfKinds \ {"plugins"}
-                                  [] l = 2 -> AllConfKinds \ {"plugins", "star2"}]
+                                  [] l = 2 -> AllConfKinds \ {"plugins", "star2", "imp2"}]
+MCLevelsChain == [l \in 0..2 |-> {"absent", "def", "override"}]
+MCSameChain == {"none", "def", "override"}
+MCExtraChain == {{}, {"pl"}, {"tp"}, {"pl", "tp"}, {"plo"}, {"plo", "tp"}}
 MCLevelsSmall == [l \in 0..2 |-> CASE l = 0 -> {"absent", "def", "star"}
                                    [] l = 1 -> {"absent", "def", "override", "imp"}
                                    [] l = 2 -> {"absent", "irrelevant", "def", "override"}]
@@ -52,7 +58,10 @@ MCSameKinds == {"none", "def", "def2", "override"}
 MCExtraAll  == SUBSET {"cs", "o", "m", "pl", "tp"}
 MCExtraFew  == {{}, {"cs"}, {"pl", "tp"}}
 MCUseKinds  == {"tp", "fp", "um", "uc", "pm", "ip"}
+MCUseTP     == {"tp", "fp"}
 MCUFiles    == {"u", "c2"}
+MCRevNo     == {FALSE}
+MCRevBoth   == {FALSE, TRUE}
 MCEmitAll   == {"goto", "refs", "avail", "rff", "unused"}
 MCEmitGoto  == {"goto"}
 
@@ -73,11 +82,13 @@ ConfItems(k, l) ==
       [] k = "imp_nonfix" -> <<Imp(HelpFile(l), "n")>>
       [] k = "plugins"    -> <<Plugins(HelpFile(l))>>
       [] k = "star2"      -> <<Star(HelpFile(l))>>
+      [] k = "imp2"       -> <<Imp(HelpFile(l), "n")>>
       [] OTHER -> <<>>
 HelpItems(k) ==
     CASE k \in {"star", "imp", "plugins"} -> <<DefN>>
       [] k = "imp_nonfix" -> <<Helper("n")>>
       [] k = "star2" -> <<Star("hh")>>
+      [] k = "imp2" -> <<Imp("hh", "n")>>
       [] OTHER -> <<>>
 
 SameItems(sk) ==
@@ -99,25 +110,29 @@ WsOf(c) ==
         CASE f \in {"c0", "c1", "c2"} ->
                LET l == CASE f = "c0" -> 0 [] f = "c1" -> 1 [] f = "c2" -> 2
                    base == ConfItems(c.ck[l + 1], l)
-                   its == IF c.uf = f THEN base \o UseItems(c.uk) ELSE base
+                   its == IF c.uf = f THEN (IF c.rev THEN UseItems(c.uk) \o base ELSE base \o UseItems(c.uk)) ELSE base
                IN  IF c.ck[l + 1] = "absent" /\ c.uf # f THEN Absent ELSE Module(its)
           [] f \in {"h0", "h1", "h2"} ->
                LET l == CASE f = "h0" -> 0 [] f = "h1" -> 1 [] f = "h2" -> 2
-               IN  IF c.ck[l + 1] \in {"star", "imp", "imp_nonfix", "plugins", "star2"}
+               IN  IF c.ck[l + 1] \in {"star", "imp", "imp_nonfix", "plugins", "star2", "imp2"}
                    THEN Module(HelpItems(c.ck[l + 1])) ELSE Absent
-          [] f = "hh" -> IF c.ck[2] = "star2" THEN Module(<<DefN>>) ELSE Absent
-          [] f = "u"  -> IF c.uf = "u" THEN Module(SameItems(c.sk) \o UseItems(c.uk))
+          [] f = "hh" -> IF c.ck[2] \in {"star2", "imp2"} THEN Module(<<DefN>>) ELSE Absent
+          [] f = "u"  -> IF c.uf = "u" THEN Module(IF c.rev THEN UseItems(c.uk) \o SameItems(c.sk)
+                                                     ELSE SameItems(c.sk) \o UseItems(c.uk))
                          ELSE Module(<<Test("test_0", <<>>)>>)
           [] f = "cs" -> IF "cs" \in c.ex THEN Module(<<DefN>>) ELSE Absent
           [] f = "o"  -> IF "o" \in c.ex THEN Module(<<DefN, Test("test_o", <<"n">>)>>) ELSE Absent
           [] f = "m"  -> IF "m" \in c.ex THEN Module(<<DefN>>) ELSE Absent
-          [] f = "pl" -> IF "pl" \in c.ex THEN Module(<<DefN>>) ELSE Absent
+          [] f = "pl" -> IF "pl" \in c.ex THEN Module(<<DefN>>)
+                         ELSE IF "plo" \in c.ex THEN Module(<<OverN>>) ELSE Absent
+          [] f \in {"t0", "t1"} -> IF ExtraUsers THEN Module(<<Test("test_t", <<"n">>)>>) ELSE Absent
           [] f = "tp" -> IF "tp" \in c.ex THEN Module(<<DefN>>) ELSE Absent]
 
 Definers(ws) == { f \in MCFiles : ws[f].present /\ DefsIn(ws, f, "n") # {} }
 Present(ws) == { f \in MCFiles : ws[f].present }
 
 Perms(S) == { s \in [1..Cardinality(S) -> S] : \A i, j \in 1..Cardinality(S) : i # j => s[i] # s[j] }
+Reverse(s) == [i \in 1..Len(s) |-> s[Len(s) + 1 - i]]
 
 \* deterministic order of the files that do not define "n" (their order is immaterial)
 RECURSIVE SetToSeq(_)
@@ -126,7 +141,8 @@ SetToSeq(S) == IF S = {} THEN <<>> ELSE LET x == CHOOSE y \in S : TRUE IN <<x>> 
 CkSet(levels) == { s \in [1..3 -> ConfKinds] : \A l \in 0..2 : s[l + 1] \in levels[l] }
 
 ShapeSet(ck, sks, exs, uks, ufs) ==
-    { c \in [ck : {ck}, sk : sks, ex : exs, uk : uks, uf : ufs] :
+    { c \in [ck : {ck}, sk : sks, ex : exs, uk : uks, uf : ufs, rev : Revs] :
+        /\ (c.rev => (c.sk # "none" \/ c.uf # "u"))
         /\ (c.uf # "u" => c.sk = "none")
         /\ (c.uf = "c2" => c.ck[3] # "absent")
         /\ Cardinality(Definers(WsOf(c))) <= MaxDefiners }
@@ -153,7 +169,8 @@ Next ==
     \/ /\ stage = 1
        /\ \E c \in ShapesFor(case.shape) :
             LET w == WsOf(c) IN
-            \E o \in Perms(Definers(w)) :
+            \E o \in (IF OrderMode = "all" THEN Perms(Definers(w))
+                      ELSE LET q == SetToSeq(Definers(w)) IN {q, Reverse(q)}) :
                /\ stage' = 2
                /\ case' = [shape |-> c, order |-> OrderFor(w, o)]
                /\ vws' = w
@@ -201,13 +218,15 @@ AvailRow(f) ==
                       IF IdOf(impl[n]) \in PyResolveSet(Ws, f, n, NoDef) THEN {}
                       ELSE Blame(LAMBDA D : IdOf(ImplAvailable(Ix, D, f)[n]) \in PyResolveSet(Ws, f, n, NoDef), 0)]]
 
-RffRow(f) ==
-    [f |-> f,
-     impl |-> [n \in Names |-> IdOf(ImplResolveForFile(Ix, AllDevs, f, n))],
-     py   |-> [n \in Names |-> PyResolveSet(Ws, f, n, NoDef)],
-     blame |-> [n \in Names |->
-                  IF IdOf(ImplResolveForFile(Ix, AllDevs, f, n)) \in PyResolveSet(Ws, f, n, NoDef) THEN {}
-                  ELSE Blame(LAMBDA D : IdOf(ImplResolveForFile(Ix, D, f, n)) \in PyResolveSet(Ws, f, n, NoDef), 0)]]
+\* outgoing calls: one row per (fixture definition, dependency name)
+RffRow(r, j) ==
+    LET dep  == r.deps[j]
+        excl == IF dep = r.name THEN IdOf(r) ELSE NoDef
+        py   == PyResolveSet(Ws, r.file, dep, excl)
+        impl == IdOf(ImplResolveForFileX(Ix, AllDevs, r.file, dep, excl))
+    IN  [d |-> IdOf(r), dep |-> dep, py |-> py, impl |-> impl,
+         blame |-> IF impl \in py THEN {}
+                   ELSE Blame(LAMBDA D : IdOf(ImplResolveForFileX(Ix, D, r.file, dep, excl)) \in py, 0)]
 
 UnusedRow ==
     [impl |-> ImplUnused(Ix, AllDevs),
@@ -222,7 +241,7 @@ CaseJson ==
      goto  |-> IF "goto" \in Emit THEN { GotoRow(u) : u \in AllUsages(Ws) } ELSE {},
      refs  |-> IF "refs" \in Emit THEN { RefsRow(r) : r \in AllRecs } ELSE {},
      avail |-> IF "avail" \in Emit THEN { AvailRow(f) : f \in QueryFiles } ELSE {},
-     rff   |-> IF "rff" \in Emit THEN { RffRow(f) : f \in QueryFiles } ELSE {},
+     rff   |-> IF "rff" \in Emit THEN UNION { { RffRow(r, j) : j \in 1..Len(r.deps) } : r \in AllRecs } ELSE {},
      unused |-> IF "unused" \in Emit THEN {UnusedRow} ELSE {}]
 
 EmitCase == Done => PrintT("CASE " \o ToJson(CaseJson))
@@ -246,6 +265,9 @@ RepairedViewsAgree == Done =>
     \A f \in QueryFiles : \A n \in Names :
         /\ IdOf(ImplAvailable(Ix, {}, f)[n]) \in PyResolveSet(Ws, f, n, NoDef)
         /\ IdOf(ImplResolveForFile(Ix, {}, f, n)) \in PyResolveSet(Ws, f, n, NoDef)
+        /\ \A r \in AllRecs : \A j \in 1..Len(r.deps) :
+              LET excl == IF r.deps[j] = r.name THEN IdOf(r) ELSE NoDef IN
+              IdOf(ImplResolveForFileX(Ix, {}, r.file, r.deps[j], excl)) \in PyResolveSet(Ws, r.file, r.deps[j], excl)
 
 \* C04: the reverse index mirrors the per-file usages (as bags)
 Mirror == Done =>
